@@ -1,1 +1,151 @@
-(* stub: to be written by group Costs *)
+(* C17 - total-cost tables show the true maximum cost held.
+   Obligations of the property; proofs live in Proofs/CostsProps.v.
+
+   Model: Model/Costs.v (costs.rs + render_total_costs + the concatenation of
+   the securities' deltas); [costs exact ds] is the code as it is now run in
+   exact arithmetic on the list of deltas ds.  Specification: Spec/MaxCost.v.
+   Preconditions (established by construction of delta lists and checked on
+   every generated case by the correspondence check):
+     valid_delta     cost bases are >= 0 and present on counted rows,
+     faithful_delta  the code's is_default() flag singles out the default affiliate,
+     chronological   the counted rows of one security are in settlement order. *)
+From Coq Require Import List NArith ZArith QArith Qcanon Bool Sorting.Sorted.
+From ACB Require Import Base.Outcome Base.QcExtra Base.Arith Model.Tx Model.Costs Spec.MaxCost
+     Proofs.CostsProps.
+Import ListNotations.
+Local Open Scope Z_scope.
+
+(* Full strength: for EVERY list of deltas (any number of securities, any
+   number of settlements per day, same-day round trips, gaps, years without
+   rows, other affiliates) the model runs to completion and its four outputs
+   are those of the specification: security columns, dated rows (per-security
+   figure and total), notes, and yearly rows satisfying the arg-max relation. *)
+Theorem C17_tables_refine_spec : forall ds,
+  Forall valid_delta ds -> Forall faithful_delta ds -> chronological ds ->
+  exists t, costs exact ds = Ok t /\
+            ct_secs t = spec_secs ds /\ ct_total t = spec_table ds /\
+            ct_notes t = spec_notes ds /\ yearly_ok ds (ct_yearly t).
+Proof. exact CostsProps.costs_refines_spec. Qed.
+Check C17_tables_refine_spec : forall ds,
+  Forall valid_delta ds -> Forall faithful_delta ds -> chronological ds ->
+  exists t, costs exact ds = Ok t /\
+            ct_secs t = spec_secs ds /\ ct_total t = spec_table ds /\
+            ct_notes t = spec_notes ds /\ yearly_ok ds (ct_yearly t).
+Print Assumptions C17_tables_refine_spec.
+
+(* The daily figure: each dated row shows, per security, spec_cost. *)
+Theorem C17_daily : forall ds t,
+  Forall valid_delta ds -> Forall faithful_delta ds -> chronological ds -> costs exact ds = Ok t ->
+  ct_secs t = spec_secs ds /\
+  ct_total t = map (fun d => (d, spec_total ds d, map (spec_cost ds d) (spec_secs ds))) (spec_days ds).
+Proof. exact CostsProps.costs_daily. Qed.
+Check C17_daily : forall ds t,
+  Forall valid_delta ds -> Forall faithful_delta ds -> chronological ds -> costs exact ds = Ok t ->
+  ct_secs t = spec_secs ds /\
+  ct_total t = map (fun d => (d, spec_total ds d, map (spec_cost ds d) (spec_secs ds))) (spec_days ds).
+Print Assumptions C17_daily.
+
+(* ... where spec_cost is: the greatest cost base after any counted row of the
+   security settling that day; else the cost base after the latest earlier
+   counted row; else the opening cost base. *)
+Theorem C17_daily_figure_meaning : forall ds d s,
+  chronological ds ->
+  let rows := rows_of ds s in
+  let today := filter (fun c => cd_day c =? d) rows in
+  let earlier := filter (fun c => cd_day c <? d) rows in
+  (today <> [] ->
+     (exists c, In c today /\ spec_cost ds d s = post_of c) /\
+     (forall c, In c today -> (post_of c <= spec_cost ds d s)%Qc)) /\
+  (today = [] -> earlier <> [] ->
+     exists c, In c earlier /\ spec_cost ds d s = post_of c /\
+               last_opt earlier = Some c /\ forall c', In c' earlier -> cd_day c' <= cd_day c) /\
+  (today = [] -> earlier = [] ->
+     spec_cost ds d s = match rows with c :: _ => pre_of c | [] => 0%Qc end).
+Proof. exact CostsProps.spec_cost_meaning. Qed.
+Check C17_daily_figure_meaning : forall ds d s,
+  chronological ds ->
+  let rows := rows_of ds s in
+  let today := filter (fun c => cd_day c =? d) rows in
+  let earlier := filter (fun c => cd_day c <? d) rows in
+  (today <> [] ->
+     (exists c, In c today /\ spec_cost ds d s = post_of c) /\
+     (forall c, In c today -> (post_of c <= spec_cost ds d s)%Qc)) /\
+  (today = [] -> earlier <> [] ->
+     exists c, In c earlier /\ spec_cost ds d s = post_of c /\
+               last_opt earlier = Some c /\ forall c', In c' earlier -> cd_day c' <= cd_day c) /\
+  (today = [] -> earlier = [] ->
+     spec_cost ds d s = match rows with c :: _ => pre_of c | [] => 0%Qc end).
+Print Assumptions C17_daily_figure_meaning.
+
+(* the dated rows are the days with a counted row, ascending; the columns the
+   securities with a counted row, ascending *)
+Theorem C17_rows_and_columns : forall ds,
+  (StronglySorted Z.lt (spec_days ds) /\
+   forall d, In d (spec_days ds) <-> exists c, In c ds /\ counted c = true /\ cd_day c = d) /\
+  (StronglySorted N.lt (spec_secs ds) /\
+   forall s, In s (spec_secs ds) <-> exists c, In c ds /\ counted c = true /\ cd_sec c = s).
+Proof. intros ds. split; [exact (CostsProps.spec_days_meaning ds)|exact (CostsProps.spec_secs_meaning ds)]. Qed.
+Check C17_rows_and_columns : forall ds,
+  (StronglySorted Z.lt (spec_days ds) /\
+   forall d, In d (spec_days ds) <-> exists c, In c ds /\ counted c = true /\ cd_day c = d) /\
+  (StronglySorted N.lt (spec_secs ds) /\
+   forall s, In s (spec_secs ds) <-> exists c, In c ds /\ counted c = true /\ cd_sec c = s).
+Print Assumptions C17_rows_and_columns.
+
+(* The row total is the sum of the row's figures. *)
+Theorem C17_total_is_sum : forall ds t,
+  Forall valid_delta ds -> Forall faithful_delta ds -> chronological ds -> costs exact ds = Ok t ->
+  Forall (fun r : trow => snd (fst r) = qsum (snd r)) (ct_total t).
+Proof. exact CostsProps.costs_total_is_sum. Qed.
+Check C17_total_is_sum : forall ds t,
+  Forall valid_delta ds -> Forall faithful_delta ds -> chronological ds -> costs exact ds = Ok t ->
+  Forall (fun r : trow => snd (fst r) = qsum (snd r)) (ct_total t).
+Print Assumptions C17_total_is_sum.
+
+(* The yearly table: one row per year with a dated row; it is the dated row of
+   a day of that year, and every other day of the year has a lower total, or
+   the same total and is not earlier. *)
+Theorem C17_yearly_is_argmax : forall ds t,
+  Forall valid_delta ds -> Forall faithful_delta ds -> chronological ds -> costs exact ds = Ok t ->
+  yearly_ok ds (ct_yearly t).
+Proof. exact CostsProps.costs_yearly_is_argmax. Qed.
+Check C17_yearly_is_argmax : forall ds t,
+  Forall valid_delta ds -> Forall faithful_delta ds -> chronological ds -> costs exact ds = Ok t ->
+  yearly_ok ds (ct_yearly t).
+Print Assumptions C17_yearly_is_argmax.
+
+(* Every other delta is listed as ignored, in order. *)
+Theorem C17_others_listed_ignored : forall ds t,
+  Forall valid_delta ds -> Forall faithful_delta ds -> chronological ds -> costs exact ds = Ok t ->
+  ct_notes t = map note_of (filter (fun d => negb (counted d)) ds).
+Proof. exact CostsProps.costs_others_ignored. Qed.
+Check C17_others_listed_ignored : forall ds t,
+  Forall valid_delta ds -> Forall faithful_delta ds -> chronological ds -> costs exact ds = Ok t ->
+  ct_notes t = map note_of (filter (fun d => negb (counted d)) ds).
+Print Assumptions C17_others_listed_ignored.
+
+(* The code before commit 237950b ("carry the closing cost forward"), i.e. the
+   same model with the day's maximum carried forward, does NOT satisfy the
+   specification: a security bought and fully sold on one day keeps its peak
+   cost on the next dated row.  (The witness is replayed by the check against
+   the real code on every run: it must now show 0.) *)
+Theorem C17_carry_forward_max_refuted :
+  exists ds, Forall valid_delta ds /\ Forall faithful_delta ds /\ chronological ds /\
+             exists t, costs_with exact CarryMax nsort zsort ds = Ok t /\ ct_total t <> spec_table ds.
+Proof. exact CostsProps.carry_max_refuted. Qed.
+Check C17_carry_forward_max_refuted :
+  exists ds, Forall valid_delta ds /\ Forall faithful_delta ds /\ chronological ds /\
+             exists t, costs_with exact CarryMax nsort zsort ds = Ok t /\ ct_total t <> spec_table ds.
+Print Assumptions C17_carry_forward_max_refuted.
+
+(* Non-vacuity: the witness satisfies the preconditions, and the code as it is
+   now shows AAA = 100 on 2022-03-03, AAA = 0 / BBB = 5 on 2022-03-04 and the
+   yearly maximum of 2022 on 2022-03-03. *)
+Example C17_nonvacuous :
+  (Forall valid_delta carry_witness /\ Forall faithful_delta carry_witness /\ chronological carry_witness) /\
+  match costs exact carry_witness with
+  | Ok t => map trow_nums (ct_total t) = [(738217, 100, [100; 0]); (738218, 5, [0; 5])]
+            /\ map (fun r : yrow => (fst (fst (fst r)), snd (fst (fst r)))) (ct_yearly t) = [(2022, 738217)]
+  | _ => False
+  end.
+Proof. split; [exact CostsProps.carry_witness_pre|exact CostsProps.carry_witness_now]. Qed.
